@@ -90,6 +90,10 @@ impl ProposalTable {
 
     /// Update table by proposal window move forward, drop outdated proposal set
     /// Return removed proposal ids set and new ProposalView
+    ///
+    /// The removed ids are the ids of `origin` (proposed or in the gap) which the new view does
+    /// not have in the same or in a later stage: an id which falls back from proposed to the gap
+    /// is reported as removed, an id which advances from the gap to proposed is not.
     pub fn finalize(
         &mut self,
         origin: &ProposalView,
@@ -139,8 +143,22 @@ impl ProposalTable {
             )
         };
 
-        let removed_ids: HashSet<ProposalShortId> =
-            origin.set().difference(&new_ids).cloned().collect();
+        let gap: HashSet<ProposalShortId> = gap;
+
+        // An id leaves the view when it expires from the window, or when a reorg detaches the
+        // block which proposed it. The latter can happen to an id in the gap as well.
+        let removed_ids: HashSet<ProposalShortId> = origin
+            .set()
+            .iter()
+            .filter(|id| !new_ids.contains(id))
+            .chain(
+                origin
+                    .gap()
+                    .iter()
+                    .filter(|id| !new_ids.contains(id) && !gap.contains(id)),
+            )
+            .cloned()
+            .collect();
         ckb_logger::trace!(
             "[proposal_finalize] number {} proposal_start {}----proposal_end {}",
             number,
